@@ -18,9 +18,11 @@ def IsExpired (now : Nat) (c : Tunnox.C03.ClientConfigT) : Bool :=
 end models.ClientConfig
 
 namespace Skel
-def C03_UpdateAuth : List String := ["mu.Lock", "mu.Unlock"]
-def C03_handleHandshake : List String := ["json.Unmarshal", "getControlConnectionByConnID", "getConnectionByConnID", "NewControlConnection", "RegisterControlConnection", "getControlConnectionByConnID", "getConnectionByConnID", "NewControlConnection", "RegisterControlConnection", "authHandler.HandleHandshake", "sendHandshakeResponse", "sendHandshakeResponse", "clientRegistry.GetByClientID", "clientRegistry.Remove", "clientRegistry.UpdateAuth", "getConnectionByConnID", "getConnectionByConnID"]
-def C03_removeConnectionLocked : List String := ["Stream.Close", "delete"]
+def C03_DropStaleIndex : List String := ["mu.Lock", "mu.Unlock", "delete"]
+def C03_UpdateAuth : List String := ["mu.Lock", "mu.Unlock", "unindexLocked"]
+def C03_handleHandshake : List String := ["json.Unmarshal", "getControlConnectionByConnID", "getConnectionByConnID", "NewControlConnection", "RegisterControlConnection", "getControlConnectionByConnID", "getConnectionByConnID", "NewControlConnection", "RegisterControlConnection", "authHandler.HandleHandshake", "sendHandshakeResponse", "clientRegistry.DropStaleIndex", "sendHandshakeResponse", "clientRegistry.GetByClientID", "clientRegistry.Remove", "clientRegistry.UpdateAuth", "getConnectionByConnID", "getConnectionByConnID"]
+def C03_removeConnectionLocked : List String := ["Stream.Close", "unindexLocked", "delete"]
+def C03_unindexLocked : List String := ["delete"]
 def ComputeResponse : List String := ["hmac.New", "h.Write", "hex.EncodeToString", "h.Sum"]
 def GenerateChallenge : List String := ["rand.Read", "hex.EncodeToString"]
 def HandleHandshake : List String := ["ipManager.IsAllowed", "bruteForceProtector.IsBanned", "rateLimiter.AllowIP", "handleFirstConnection", "cloudControl.GetClientConfig", "bruteForceProtector.RecordFailure", "config.IsExpired", "handleChallengePhase1", "handleChallengePhase2"]
@@ -32,6 +34,7 @@ def handleFirstConnection : List String := ["cloudControl.GenerateAnonymousCrede
 end Skel
 
 namespace Cond
+def DropStaleIndex : List String := ["conn == nil", "indexed == conn && clientID != conn.ClientID"]
 def HandleHandshake : List String := ["remoteAddr != nil", "h.ipManager != nil", "allowed, reason := h.ipManager.IsAllowed(ip); !allowed", "h.bruteForceProtector != nil", "banned, reason := h.bruteForceProtector.IsBanned(ip); banned", "req.ClientID == 0 && h.rateLimiter != nil", "!h.rateLimiter.AllowIP(ip)", "isFirstConnection := req.ClientID == 0 && (req.Token == \"new-client\" || strings.HasPrefix(req.Token, \"anonymous:\"))", "isFirstConnection", "err != nil || config == nil", "h.bruteForceProtector != nil", "config.IsExpired()", "req.ChallengeResponse == \"\""]
 def IsAllowed : List String := ["m.isInList(ip, m.whitelist)", "record := m.findInList(ip, m.blacklist); record != nil", "record.isExpired()"]
 def IsBanned : List String := ["!exists", "record.isExpired()"]
@@ -42,6 +45,7 @@ def handleChallengePhase1 : List String := ["h.secretKeyMgr == nil", "config.Sec
 def handleChallengePhase2 : List String := ["challenge == \"\"", "h.bruteForceProtector != nil", "!h.secretKeyMgr.VerifyResponse(config.SecretKeyEncrypted, challenge, req.ChallengeResponse)", "h.bruteForceProtector != nil", "h.bruteForceProtector != nil"]
 def handleHandshake : List String := ["s.authHandler == nil", "len(connPacket.Packet.Payload) > 0", "err := json.Unmarshal(connPacket.Packet.Payload, req); err != nil", "isControlConnection := req.ConnectionType != \"tunnel\"", "req.ConnectionType == \"\"", "isControlConnection", "existingConn != nil", "conn == nil", "enforcedProtocol == \"\"", "conn.RawConn != nil", "existingConn != nil", "conn == nil", "enforcedProtocol == \"\"", "conn.RawConn != nil", "err != nil", "concreteConn, ok := clientConn.(*ControlConnection); ok", "err := s.sendHandshakeResponse(clientConn, resp); err != nil", "isControlConnection && clientConn.IsAuthenticated() && clientConn.GetClientID() > 0", "oldConn != nil && oldConn.GetConnID() != clientConn.GetConnID()", "s.connStateStore != nil", "err := s.connStateStore.UnregisterConnection(s.Ctx(), oldConn.GetConnID()); err != nil", "concreteConn, ok := clientConn.(*ControlConnection); ok", "err := s.clientRegistry.UpdateAuth(concreteConn.ConnID, clientConn.GetClientID(), concreteConn.UserID); err != nil", "s.connStateStore != nil", "conn != nil && conn.Protocol != \"\"", "err := s.connStateStore.RegisterConnection(s.Ctx(), stateInfo); err != nil", "conn != nil && conn.Stream != nil", "handshakeHandler, ok := reader.(interface{ OnHandshakeComplete(clientID int64) }); ok", "isControlConnection && clientConn.IsAuthenticated() && clientConn.GetClientID() > 0"]
 def removeConnectionLocked : List String := ["conn == nil", "conn.Stream != nil"]
+def unindexLocked : List String := ["indexed == conn"]
 end Cond
 
 end Gen
